@@ -268,6 +268,7 @@ func cmdC02(args []string) {
 		s := randSem(rng)
 		cfg := s.spell(rng)
 		m, err := cors.NewMiddleware(*cfg)
+		noise(m)
 		if err != nil {
 			rejected++
 			t.emit(map[string]any{"ev": "Rejected", "cfg": cfgJSON(cfg), "err": err.Error()})
@@ -399,6 +400,7 @@ func cmdC02Gen(args []string) {
 		}
 		cfg := s.spell(rng)
 		m, err := cors.NewMiddleware(*cfg)
+		noise(m)
 		if err != nil {
 			rejected++
 			t.emit(map[string]any{"ev": "Rejected", "cfg": cfgJSON(cfg), "err": err.Error()})
